@@ -60,6 +60,16 @@ TBlindKey ==
   /\ Ev.ev = "bkey" /\ pieces = << >>
   /\ KeyAction(Ev.key)
   /\ cur' >= 0 /\ cur' <= Len(IF idx' >= Len(hist') THEN buf' ELSE hist'[idx' + 1])
+(* the same keys as a terminal speaking the keyboard-enhancement protocol reports them: every event carries its kind. A press and an       *)
+(* auto-repeat of a held key are key presses; a release is not a key press: nothing changes.                                             *)
+WireKinds == { "press", "repeat", "release" }
+TBlindWire ==
+  /\ Ev.ev = "bwire" /\ Ev.kind \in WireKinds
+  /\ IF Ev.kind = "release"
+     THEN UNCHANGED evars
+     ELSE /\ pieces = << >>
+          /\ KeyAction(Ev.key)
+          /\ cur' >= 0 /\ cur' <= Len(IF idx' >= Len(hist') THEN buf' ELSE hist'[idx' + 1])
 (* after an Enter the debugger takes all commands of the submitted line (they are harmless) and a new line starts *)
 TBlindDrain ==
   /\ Ev.ev = "bdrain"
@@ -71,7 +81,7 @@ TEndPty == /\ Ev.ev = "end" /\ Ev.kind = "pty" /\ pieces = << >>
            /\ UNCHANGED evars
 
 Step(A) == /\ l <= NRec /\ ~taint /\ A /\ l' = l + 1 /\ UNCHANGED << bad, taint >>
-TRegular == Step(TKey) \/ Step(TRead) \/ Step(TEnd) \/ Step(TBlindKey) \/ Step(TBlindDrain) \/ Step(TEndPty)
+TRegular == Step(TKey) \/ Step(TRead) \/ Step(TEnd) \/ Step(TBlindKey) \/ Step(TBlindWire) \/ Step(TBlindDrain) \/ Step(TEndPty)
 TResync == /\ l <= NRec /\ ~taint /\ Ev.ev # "init" /\ ~ENABLED TRegular
            /\ bad' = bad \cup { << l, Ev.ev >> } /\ taint' = TRUE /\ l' = l + 1 /\ UNCHANGED evars
 TSkip == /\ l <= NRec /\ taint /\ Ev.ev # "init" /\ l' = l + 1 /\ UNCHANGED << evars, bad, taint >>
